@@ -375,6 +375,14 @@ Proof.
   intros Hwf H Hin Hn. eapply ok_sound; eauto. eapply compile_prog_ok; eauto.
 Qed.
 
+Lemma stmts_anchored pr fuel b st ls st' :
+  wf_prog pr = true -> wf_stmts b = true -> all_ok (outf st) ->
+  compile_stmts pr fuel b st = Ok (ls, st') -> ok ls.
+Proof.
+  intros Hwf Hb Ha H. destruct (P_any pr Hwf fuel) as (_ & Pss & _).
+  destruct (Pss _ _ _ _ H Hb Ha) as [A _]. exact A.
+Qed.
+
 (* lemmas about name lists used by the termination proof *)
 Lemma memN_app x a b : memN x (a ++ b) = memN x a || memN x b.
 Proof. induction a as [|y a IH]; simpl; auto. rewrite IH. now rewrite orb_assoc. Qed.
@@ -775,3 +783,248 @@ Proof.
   apply app_eq_nil in El as [E1 E2]. apply map_eq_nil in E1. subst b' t'. rewrite app_nil_r in A, B. subst.
   cbn [resolve_path]. unfold dot1, dotdot. cbn. now rewrite rev_involutive.
 Qed.
+
+(* ------------------------------------------------------------------ every function of the package is emitted *)
+
+Section Emitted.
+Variable pr : prog.
+
+Definition emitted (g : N) (st : state) : Prop := In g (map fst (outf st)).
+(* every function that is no longer unloaded has been emitted, or is being compiled right now (pending) *)
+Definition E_inv (pending : list N) (st : state) : Prop :=
+  forall g, In g (func_names pr) -> memN g (unl st) = false -> emitted g st \/ In g pending.
+Definition grows (st st' : state) : Prop := forall x, In x (outf st) -> In x (outf st').
+
+Definition E_post (pending : list N) (st st' : state) : Prop := E_inv pending st' /\ grows st st'.
+Definition E_stmt (f : nat) : Prop := forall s st ls st' pd, compile_stmt pr f s st = Ok (ls, st') -> E_inv pd st -> E_post pd st st'.
+Definition E_stmts (f : nat) : Prop := forall b st ls st' pd, compile_stmts pr f b st = Ok (ls, st') -> E_inv pd st -> E_post pd st st'.
+Definition E_ostmt (f : nat) : Prop := forall o st ls st' pd, compile_ostmt pr f o st = Ok (ls, st') -> E_inv pd st -> E_post pd st st'.
+Definition E_parts (f : nat) : Prop := forall ps st ls st' pd, compile_parts pr f ps st = Ok (ls, st') -> E_inv pd st -> E_post pd st st'.
+Definition E_els (f : nat) : Prop := forall e st ls st' pd, compile_els pr f e st = Ok (ls, st') -> E_inv pd st -> E_post pd st st'.
+Definition E_clauses (f : nat) : Prop := forall cs st ls st' pd, compile_clauses pr f cs st = Ok (ls, st') -> E_inv pd st -> E_post pd st st'.
+(* load_func g is entered with g already taken out of unl: g is pending during the call and emitted after it *)
+Definition E_load (f : nat) : Prop := forall g st st' pd,
+  load_func pr f g st = Ok st' -> In g (func_names pr) -> E_inv (g :: pd) st -> E_post pd st st'.
+Definition E_all (f : nat) : Prop := E_stmt f /\ E_stmts f /\ E_ostmt f /\ E_parts f /\ E_els f /\ E_clauses f /\ E_load f.
+
+Lemma E_inv_cm pd c st : E_inv pd st -> E_inv pd (set_cm c st).
+Proof. intros H. exact H. Qed.
+Lemma grows_refl st : grows st st. Proof. intros x H. exact H. Qed.
+Lemma grows_trans a b c : grows a b -> grows b c -> grows a c.
+Proof. intros H1 H2 x Hx. auto. Qed.
+Lemma E_post_refl pd st : E_inv pd st -> E_post pd st st.
+Proof. intros H. split; [exact H|apply grows_refl]. Qed.
+Lemma E_post_trans pd a b c : E_post pd a b -> E_post pd b c -> E_post pd a c.
+Proof. intros [_ G1] [I2 G2]. split; [exact I2|eapply grows_trans; eauto]. Qed.
+
+Lemma memN_removeN x g l : memN x (removeN g l) = false -> x <> g -> memN x l = false.
+Proof.
+  induction l as [|y t IH]; simpl; auto. destruct (N.eqb g y) eqn:E.
+  - apply N.eqb_eq in E. subst y. intros H Hne. rewrite (IH H Hne).
+    destruct (N.eqb x g) eqn:E2; [apply N.eqb_eq in E2; congruence|reflexivity].
+  - simpl. intros H Hne. apply orb_false_iff in H as [H1 H2]. rewrite H1. simpl. auto.
+Qed.
+
+Lemma find_func_names g : In g (func_names pr) -> exists p dp hd dk sh body, find_func pr g = Some (DFunc g p dp hd dk sh body).
+Proof.
+  unfold func_names. induction pr as [|d t IH]; simpl; [tauto|].
+  destruct d as [g' p dp hd dk sh body|g' p dp hd dk body]; simpl.
+  - intros [H|H].
+    + subst g'. rewrite N.eqb_refl. eauto 10.
+    + destruct (N.eqb g g') eqn:E; [apply N.eqb_eq in E; subst; eauto 10|auto].
+  - auto.
+Qed.
+
+Lemma find_func_not_name g : ~ In g (func_names pr) -> find_func pr g = None.
+Proof.
+  unfold func_names. induction pr as [|x t IH]; simpl; auto.
+  destruct x as [g' ? ? ? ? ? ?|? ? ? ? ? ?]; simpl; auto.
+  intros H. destruct (N.eqb g g') eqn:E; [apply N.eqb_eq in E; subst; tauto|]. apply IH. tauto.
+Qed.
+
+Lemma load_func_noop f g st st' : load_func pr f g st = Ok st' -> ~ In g (func_names pr) -> st' = st.
+Proof.
+  intros H Hn. destruct f as [|f]; [discriminate H|]. cbn [load_func] in H.
+  rewrite (find_func_not_name g Hn) in H. inversion H. reflexivity.
+Qed.
+
+Lemma E_step f : E_all f -> E_all (S f).
+Proof.
+  intros (Is & Iss & Io & Ip & Ie & Ic & Il).
+  unfold E_all, E_stmt, E_stmts, E_ostmt, E_parts, E_els, E_clauses, E_load in *.
+  refine (conj _ (conj _ (conj _ (conj _ (conj _ (conj _ _)))))).
+  - intros s st ls st' pd H I. destruct s; cbn [compile_stmt] in H.
+    + bind_in H. inversion H; subst; clear H. exact (Ip _ _ _ _ _ E I).
+    + bind_in H. inversion H; subst; clear H. destruct p, hasdoc; exact (Ip _ _ _ _ _ E I).
+    + bind_in H. inversion H; subst; clear H. exact (Iss _ _ _ _ _ E I).
+    + bind_in H. bind_in H. bind_in H. bind_in H. inversion H; subst; clear H.
+      pose proof (Io _ _ _ _ _ E I) as P1. pose proof (Ip _ _ _ _ _ E0 (proj1 P1)) as P2.
+      pose proof (Iss _ _ _ _ _ E1 (proj1 P2)) as P3. pose proof (Ie _ _ _ _ _ E2 (proj1 P3)) as P4.
+      exact (E_post_trans _ _ _ _ (E_post_trans _ _ _ _ (E_post_trans _ _ _ _ P1 P2) P3) P4).
+    + bind_in H. bind_in H. bind_in H. bind_in H. inversion H; subst; clear H.
+      pose proof (Io _ _ _ _ _ E I) as P1. pose proof (Ip _ _ _ _ _ E0 (proj1 P1)) as P2.
+      pose proof (Iss _ _ _ _ _ E1 (proj1 P2)) as P3. pose proof (Io _ _ _ _ _ E2 (proj1 P3)) as P4.
+      exact (E_post_trans _ _ _ _ (E_post_trans _ _ _ _ (E_post_trans _ _ _ _ P1 P2) P3) P4).
+    + bind_in H. bind_in H. inversion H; subst; clear H.
+      pose proof (Ip _ _ _ _ _ E I) as P1. pose proof (Iss _ _ _ _ _ E0 (proj1 P1)) as P2.
+      exact (E_post_trans _ _ _ _ P1 P2).
+    + bind_in H. bind_in H. bind_in H. inversion H; subst; clear H.
+      pose proof (Ip _ _ _ _ _ E I) as P1. pose proof (Ip _ _ _ _ _ E0 (proj1 P1)) as P2.
+      pose proof (Iss _ _ _ _ _ E1 (proj1 P2)) as P3.
+      exact (E_post_trans _ _ _ _ (E_post_trans _ _ _ _ P1 P2) P3).
+    + bind_in H. bind_in H. bind_in H. inversion H; subst; clear H.
+      pose proof (Io _ _ _ _ _ E I) as P1. pose proof (Ip _ _ _ _ _ E0 (proj1 P1)) as P2.
+      pose proof (Ic _ _ _ _ _ E1 (proj1 P2)) as P3.
+      exact (E_post_trans _ _ _ _ (E_post_trans _ _ _ _ P1 P2) P3).
+    + bind_in H. inversion H; subst; clear H. exact (Ic _ _ _ _ _ E I).
+    + bind_in H. inversion H; subst; clear H. exact (Is _ _ _ _ _ E I).
+  - intros b st ls st' pd H I. destruct b; cbn [compile_stmts] in H.
+    + inversion H; subst. apply E_post_refl. exact I.
+    + bind_in H. bind_in H. inversion H; subst; clear H.
+      pose proof (Is _ _ _ _ _ E I) as P1. pose proof (Iss _ _ _ _ _ E0 (proj1 P1)) as P2.
+      exact (E_post_trans _ _ _ _ P1 P2).
+  - intros o st ls st' pd H I. destruct o; cbn [compile_ostmt] in H.
+    + inversion H; subst. apply E_post_refl. exact I.
+    + exact (Is _ _ _ _ _ H I).
+  - intros ps st ls st' pd H I. destruct ps; cbn [compile_parts] in H.
+    + inversion H; subst. apply E_post_refl. exact I.
+    + destruct (memN g (unl st)) eqn:Em; rewrite ?Em in H; lazy beta match in H.
+      * match type of H with bind ?m _ = _ => destruct m as [st1| |] eqn:El; cbn [bind] in H; try discriminate H end.
+        destruct (in_dec N.eq_dec g (func_names pr)) as [Hin|Hnin].
+        -- assert (I1 : E_inv (g :: pd) (set_unl (removeN g (unl st)) st)).
+           { intros x Hx Hm. unfold set_unl in Hm. cbn [unl] in Hm.
+             destruct (N.eq_dec x g) as [->|Hne]; [right; left; reflexivity|].
+             destruct (I x Hx (memN_removeN _ _ _ Hm Hne)) as [A|A]; [left; exact A|right; right; exact A]. }
+           pose proof (Il _ _ _ _ El Hin I1) as P1. unfold E_post, grows, set_unl in P1. cbn [outf] in P1.
+           pose proof (Ip _ _ _ _ _ H (proj1 P1)) as P2.
+           split; [exact (proj1 P2)|]. intros x Hx. apply (proj2 P2). apply (proj2 P1). exact Hx.
+        -- (* a name that is not a function of the package: find_func finds nothing, the state is unchanged but for unl *)
+           assert (Hst : st1 = set_unl (removeN g (unl st)) st) by (eapply load_func_noop; eauto).
+           subst st1.
+           assert (I1 : E_inv pd (set_unl (removeN g (unl st)) st)).
+           { intros x Hx Hm. unfold set_unl in Hm. cbn [unl] in Hm.
+             assert (Hne : x <> g) by (intros ->; contradiction).
+             exact (I x Hx (memN_removeN _ _ _ Hm Hne)). }
+           exact (Ip _ _ _ _ _ H I1).
+      * cbn [bind] in H. exact (Ip _ _ _ _ _ H I).
+    + bind_in H. bind_in H. inversion H; subst; clear H.
+      pose proof (Iss _ _ _ _ _ E (E_inv_cm pd None st I)) as P1.
+      pose proof (Ip _ _ _ _ _ E0 (E_inv_cm pd (cm st) s (proj1 P1))) as P2.
+      split; [exact (proj1 P2)|]. intros x Hx. apply (proj2 P2). apply (proj2 P1). exact Hx.
+    + bind_in H. bind_in H. inversion H; subst; clear H.
+      pose proof (Ip _ _ _ _ _ E I) as P1. pose proof (Ip _ _ _ _ _ E0 (proj1 P1)) as P2.
+      exact (E_post_trans _ _ _ _ P1 P2).
+  - intros e st ls st' pd H I. destruct e; cbn [compile_els] in H.
+    + inversion H; subst. apply E_post_refl. exact I.
+    + bind_in H. inversion H; subst; clear H. exact (Iss _ _ _ _ _ E I).
+    + bind_in H. inversion H; subst; clear H. exact (Is _ _ _ _ _ E I).
+  - intros cs st ls st' pd H I. destruct cs; cbn [compile_clauses] in H.
+    + inversion H; subst. apply E_post_refl. exact I.
+    + bind_in H. bind_in H. bind_in H. bind_in H. inversion H; subst; clear H.
+      pose proof (Ip _ _ _ _ _ E I) as P1. pose proof (Io _ _ _ _ _ E0 (proj1 P1)) as P2.
+      pose proof (Iss _ _ _ _ _ E1 (proj1 P2)) as P3.
+      pose proof (Ic _ _ _ _ _ E2 (E_inv_cm pd p s1 (proj1 P3))) as P4.
+      split; [exact (proj1 P4)|]. intros x Hx. apply (proj2 P4). apply (proj2 P3). apply (proj2 P2). apply (proj2 P1). exact Hx.
+  - intros g st st' pd H Hin I. cbn [load_func] in H.
+    destruct (find_func_names g Hin) as (p & dp & hd & dk & sh & body & Ef). rewrite Ef in H.
+    match type of H with bind ?m _ = _ => destruct m as [[bl st1]| |] eqn:E; cbn [bind] in H; try discriminate H end.
+    inversion H; subst; clear H.
+    pose proof (Iss _ _ _ _ _ E (E_inv_cm (g :: pd) None st I)) as P1. destruct P1 as [I1 G1].
+    split.
+    + intros x Hx Hm. unfold add_out, set_cm in Hm. cbn [unl] in Hm.
+      unfold emitted, add_out, set_cm. cbn [outf]. rewrite map_app. cbn [map fst].
+      destruct (I1 x Hx Hm) as [A|[A|A]].
+      * left. apply in_or_app. left. exact A.
+      * subst x. left. apply in_or_app. right. left. reflexivity.
+      * right. exact A.
+    + intros x Hx. unfold add_out, set_cm. cbn [outf]. apply in_or_app. left. apply G1. exact Hx.
+Qed.
+
+Lemma E_zero : E_all 0.
+Proof.
+  unfold E_all. refine (conj _ (conj _ (conj _ (conj _ (conj _ (conj _ _))))));
+    [intros x st ls st' pd H; discriminate H ..|intros g st st' pd H; discriminate H].
+Qed.
+Lemma E_any f : E_all f.
+Proof. induction f; [exact E_zero|apply E_step; assumption]. Qed.
+
+Lemma load_decls_emitted fuel : forall ds st st',
+  (forall d, In d ds -> In d pr) ->
+  E_inv [] st -> load_decls pr fuel ds st = Ok st' ->
+  E_inv [] st' /\ grows st st' /\ (forall g, In g (func_names ds) -> emitted g st').
+Proof.
+  induction ds as [|d t IH]; intros st st' Hsub I H.
+  - simpl in H. inversion H; subst. split; [exact I|]. split; [apply grows_refl|]. intros g [].
+  - assert (Hsub' : forall d0, In d0 t -> In d0 pr) by (intros d0 Hd; apply Hsub; right; exact Hd).
+    destruct d as [g p dp hd dk sh body|g p dp hd dk body]; cbn [load_decls] in H.
+    + assert (Hg : In g (func_names pr)).
+      { unfold func_names. apply in_flat_map. exists (DFunc g p dp hd dk sh body). split; [apply Hsub; left; reflexivity|left; reflexivity]. }
+      destruct (memN g (unl st)) eqn:Em.
+      * match type of H with bind ?m _ = _ => destruct m as [st1| |] eqn:El; cbn [bind] in H; try discriminate H end.
+        destruct (E_any fuel) as (_ & _ & _ & _ & _ & _ & Tl). unfold E_load in Tl.
+        assert (I1 : E_inv [g] (set_unl (removeN g (unl st)) st)).
+        { intros x Hx Hm. unfold set_unl in Hm. cbn [unl] in Hm.
+          destruct (N.eq_dec x g) as [->|Hne]; [right; left; reflexivity|].
+          destruct (I x Hx (memN_removeN _ _ _ Hm Hne)) as [A|[]]. left. exact A. }
+        destruct (Tl _ _ _ _ El Hg I1) as [I2 G2].
+        destruct (IH _ _ Hsub' I2 H) as (I3 & G3 & Em3).
+        split; [exact I3|]. split; [intros x Hx; apply G3; apply G2; exact Hx|].
+        intros x [Hx|Hx].
+        -- subst x. (* g was emitted by this very load *)
+           assert (Eg : emitted g st1).
+           { clear -El Hg. cbn [load_func] in El. destruct fuel as [|f]; [discriminate El|]. cbn [load_func] in El.
+             destruct (find_func_names g Hg) as (p & dp & hd & dk & sh & body & Ef). rewrite Ef in El.
+             match type of El with bind ?m _ = _ => destruct m as [[bl s1]| |]; cbn [bind] in El; try discriminate El end.
+             inversion El; subst. unfold emitted, add_out, set_cm. cbn [outf]. rewrite map_app. apply in_or_app. right. left. reflexivity. }
+           unfold emitted in *. apply in_map_iff in Eg as ([g' ls] & Eg1 & Eg2). apply in_map_iff. exists (g', ls). split; auto.
+        -- apply Em3. exact Hx.
+      * cbn [bind] in H. destruct (IH _ _ Hsub' I H) as (I3 & G3 & Em3).
+        split; [exact I3|]. split; [exact G3|]. intros x [Hx|Hx]; [|apply Em3; exact Hx].
+        subst x. destruct (I g Hg Em) as [A|[]].
+        unfold emitted in *. apply in_map_iff in A as ([g' ls] & A1 & A2). apply in_map_iff. exists (g', ls). split; auto.
+    + destruct (IH _ _ Hsub' I H) as (I3 & G3 & Em3). auto.
+Qed.
+
+Lemma load_methods_emitted fuel : forall ds st st',
+  load_methods pr fuel ds st = Ok st' -> E_inv [] st ->
+  grows st st' /\ (forall g p dp hd dk body, In (DMethod g p dp hd dk body) ds -> emitted g st').
+Proof.
+  induction ds as [|d t IH]; intros st st' H I.
+  - simpl in H. inversion H; subst. split; [apply grows_refl|]. intros g p dp hd dk body [].
+  - destruct d as [g p dp hd dk sh body|g p dp hd dk body]; cbn [load_methods] in H.
+    + destruct (IH _ _ H I) as [G Em]. split; [exact G|]. intros g0 p0 dp0 hd0 dk0 body0 [Hd|Hd]; [discriminate Hd|eauto].
+    + match type of H with bind ?m _ = _ => destruct m as [[bl st1]| |] eqn:E; cbn [bind] in H; try discriminate H end.
+      destruct (E_any fuel) as (_ & Tss & _). unfold E_stmts in Tss.
+      destruct (Tss _ _ _ _ [] E (E_inv_cm [] None st I)) as [I1 G1].
+      assert (I2 : E_inv [] (add_out g (print_func p dp hd dk false bl) st1)).
+      { intros x Hx Hm. unfold add_out in Hm. cbn [unl] in Hm. destruct (I1 x Hx Hm) as [A|[]].
+        left. unfold emitted, add_out. cbn [outf]. rewrite map_app. apply in_or_app. left. exact A. }
+      destruct (IH _ _ H I2) as [G Em]. split.
+      * intros x Hx. apply G. unfold add_out. cbn [outf]. apply in_or_app. left. apply G1. exact Hx.
+      * intros g0 p0 dp0 hd0 dk0 body0 [Hd|Hd]; [|eauto].
+        inversion Hd; subst. unfold emitted. apply in_map_iff. exists (g0, print_func p0 dp0 hd0 dk0 false bl). split; [reflexivity|].
+        apply G. unfold add_out. cbn [outf]. apply in_or_app. right. left. reflexivity.
+Qed.
+
+(* every top-level function and every method of the package has its Go function in the output *)
+Lemma all_functions_emitted fuel out :
+  compile_prog fuel pr = Ok out ->
+  (forall g, In g (func_names pr) -> In g (map fst out)) /\
+  (forall g p dp hd dk body, In (DMethod g p dp hd dk body) pr -> In g (map fst out)).
+Proof.
+  intros H. unfold compile_prog in H.
+  destruct (load_decls pr fuel pr _) as [st| |] eqn:E1; cbn [bind] in H; try discriminate H.
+  destruct (load_methods pr fuel pr st) as [st'| |] eqn:E2; cbn [bind] in H; try discriminate H.
+  inversion H; subst.
+  assert (I0 : E_inv [] (mkst None (func_names pr) [])).
+  { intros g Hg Hm. cbn [unl] in Hm. exfalso. clear -Hg Hm. induction (func_names pr) as [|y t IH]; simpl in *; [tauto|].
+    apply orb_false_iff in Hm as [A B]. destruct Hg as [->|Hg]; [rewrite N.eqb_refl in A; discriminate|auto]. }
+  destruct (load_decls_emitted fuel pr _ _ (fun d Hd => Hd) I0 E1) as (I1 & G1 & Em1).
+  destruct (load_methods_emitted fuel pr _ _ E2 I1) as (G2 & Em2).
+  split.
+  - intros g Hg. specialize (Em1 g Hg). unfold emitted in Em1.
+    apply in_map_iff in Em1 as ([g' ls] & A1 & A2). apply in_map_iff. exists (g', ls). split; auto.
+  - intros g p dp hd dk body Hd. exact (Em2 _ _ _ _ _ _ Hd).
+Qed.
+
+End Emitted.
